@@ -178,7 +178,7 @@ PROPS["C08"] = {
          "invariants": ["CountLaw", "PinnedEnough", "Emit"],
          "forms": ["key_plain", "key_all", "key_of", "seq_all", "seq_of", "idl_all", "idl_of", "seqm_all", "seqm_of"], "workers": 8},
     ],
-    "gens": lambda tier: [{"topic": "quant", "n": q(tier, 500, 10000)}],
+    "gens": lambda tier: [{"topic": "quant", "n": q(tier, 500, 10000)}, {"topic": "bigc", "n": q(tier, 12, 100)}],
     "rules": ["oracle", "den", "alt_fails", "load_outcome", "match_panic"],
     "chunk": 500,
 }
@@ -246,7 +246,7 @@ MANIFEST_TEXT = {
  "C06": {"level": "Exhaustive within the bound: TLC enumerates every connective form (binary chains, mapping/sequence groups, not, all()/of() over identifiers, plain/all()/of()/not() key lists, batched and mixed) x arity 1..3 (thorough 1..5) x every {T,F,M} vector x every threshold, checks the solver-loop model against the truth tables and their set-lifted forms, and each case is replayed through Rule::matches (three-valued result observed via the rule and its negation; also optimised) and validated by TLC against the language layer. The non-true values of all()/of() are pinned by the same rules as and/or (DESIGN 4.1). Unbounded part (thorough tier): the group loops as streaming machines (spec/TauFold.tla) satisfy 'loop value = closed form of the table on the operands so far' as an inductive invariant discharged by Apalache for every arity and threshold; MC_Fold (TLC) ties the streaming machines to the recursive folds that the replay binds to solver.rs.",
          "note": COMMON_NOTE + "Three-valued results are observed through the engine's own `not`, itself one of the enumerated forms.", "technique": T_FOLD},
  "C07": {"level": "Exhaustive within the bound: alphabet {a,b,A}, needles <= 2, haystacks <= 3 (thorough 4), kinds exact/prefix/suffix/contains/any and 11 regex shapes, with and without the i flag; all singles and all ordered pairs with needles <= 1: TLC checks the hit-set model of the batched automaton against the documented relations, every case is replayed (also optimised) and validated. Pattern syntax itself (what 'x*', '*x', quotes, i mean) is checked on every string <= 3 (4) over the 13 syntax characters via into_identifier. Seeded: long and multi-byte strings, lists of 1-5 patterns, arrays.",
-         "note": COMMON_NOTE + "Regexes outside the seven-construct sub-language are not given a semantic oracle.", "technique": T},
+         "note": COMMON_NOTE + "Regexes outside the modelled sub-language (literals, ., .*, .*?, ^, $, Perl classes, bracket sets, + ? *) are not given a semantic oracle.", "technique": T},
  "C08": {"level": "TLC enumerates lists of 1..3 (thorough 5) members x seven member families (batched strings, mixed batch classes, case-mixed, numbers, booleans, nested mappings, regexes that become equal once their '.*' is stripped) x nine quantifier forms (key list, sequence, identifier list, sequence of matrix-shaped mappings) x thresholds 0..k+1 x complete and partial documents, checks the law 'quantified form = explicit form' in the language layer, and replays both writings as ONE case, not optimised and under optimised switch sets: TLC requires a single denotation per switch class and the count semantics. Seeded: lists up to 6 with subset expansion of of(n).",
          "note": COMMON_NOTE + "Lists with duplicate members are excluded ('distinct members' is ambiguous).", "technique": T},
  "C09": {"level": "Exact decimal digit arithmetic in TLA+ (TLC integers are 32-bit): TLC checks trichotomy, the unions >=,<=, NaN and the engine's representation-based comparison table over 64-bit boundary points; 257 (form, operator, constant) cases x 43 field values (i64::MIN..u64::MAX, signed zero, dyadic floats, 2^63 as float, NaN, infinities, numeric and odd strings, booleans, null, containers) are replayed; seeded random 64-bit values against random constants compared digit by digit, single values and list members.",
